@@ -10,14 +10,14 @@ Definition i2n (i : int) : N := Z.to_N (Uint63.to_Z i).
 
 (* r_head = [id; ctx; kind; parsed; typed; base; nonmall; signed; height; mixed; size;
              has_sat; wit_count; op_count; exec_stack]
-   r_ths  = flattened (MAX, k, n) triples;  r_nodes = (kind, pk_cost, keys) in pre-order,
+   r_ths  = flattened (MAX, k, n) triples;  r_nodes = (kind, pk_cost, number of children, keys) in pre-order,
    key = id * 64 + paths * 4 + uncompressed * 2 + xonly
    r_rows    : code + 100 * pset + 100000 * strict            (Miniscript::validate)
    r_lim     : (code + 100 * limit + 1000 * base pset + 1000000 * strict, value)
    r_entries : code + 100 * entry + 10000 * pset + 10000000 * strict *)
 Record rcase := mkR {
   r_head : list int; r_ths : list int; r_afters : list int; r_olders : list int;
-  r_nodes : list (int * int * list int);
+  r_nodes : list (int * int * int * list int);
   r_rows : list int; r_lim : list (int * int); r_entries : list int }.
 
 Definition hd_n (r : rcase) (k : nat) : N := i2n (nth k (r_head r) 0%uint63).
@@ -32,8 +32,10 @@ Definition dec_kind (n : N) : nkind :=
   end.
 Definition dec_key (w : int) : keyinfo :=
   let n := i2n w in mkKey (n / 64) (N.testbit n 1) (N.testbit n 0) ((n / 4) mod 16).
-Definition dec_node (t : int * int * list int) : node :=
-  let '(k, c, ks) := t in mkNode (dec_kind (i2n k)) (map dec_key ks) (i2n c).
+Definition dec_node (t : int * int * int * list int) : node :=
+  let '(k, c, _, ks) := t in mkNode (dec_kind (i2n k)) (map dec_key ks) (i2n c).
+Definition rc_arities (r : list (int * int * int * list int)) : list N :=
+  map (fun t : int * int * int * list int => let '(_, _, a, _) := t in i2n a) r.
 Fixpoint dec_triples (l : list int) : list (N * N * N) :=
   match l with
   | a :: b :: c :: r => (i2n a, i2n b, i2n c) :: dec_triples r
@@ -118,13 +120,15 @@ Definition rows_eval (ps : list vparams) (r : rcase) : list (N * N * N * N * N *
                 (1, st, bi, j * 18446744073709551616 + v, cd, lim_model ps s bi j v)) (r_lim r)
   ++ map (fun w => let n := i2n w in let cd := n mod 100 in let e := (n / 100) mod 100 in
                 let i := (n / 10000) mod 1000 in let st := n / 10000000 in
-                (2, st, e, i, cd, entry_model ps c x e i)) (r_entries r).
+                (2, st, e, i, cd, entry_model ps c x e i)) (r_entries r)
+  (* the library's ext.tree_height against the model's rule on the tree shape (objects only) *)
+  ++ (if hd_b r 3 then [(3, 1, 0, 0, s_tree_height s, tree_height_of (rc_arities (r_nodes r)))] else []).
 
 Definition ev_ok (t : N * N * N * N * N * N) : bool :=
   let '(_, st, _, _, impl, model) := t in agree st impl model.
 Definition case_ok (ps : list vparams) (r : rcase) : bool := forallb ev_ok (rows_eval ps r).
 Definition case_calls (r : rcase) : N :=
-  N.of_nat (length (r_rows r) + length (r_lim r) + length (r_entries r)).
+  N.of_nat (length (r_rows r) + length (r_lim r) + length (r_entries r) + (if hd_b r 3 then 1 else 0)).
 (* calls on which both sides reject with different classes (advisory: a reordering of checks) *)
 Definition case_class_diffs (ps : list vparams) (r : rcase) : N :=
   N.of_nat (length (filter (fun t : N * N * N * N * N * N => let '(_, _, _, _, impl, model) := t in
